@@ -92,11 +92,11 @@ PROPS['C12'] = dict(level='proof', steps=[V('pages'), E3('c12-pages')],
                 text='proved for every object graph, cyclic or not (Verus): PageTreeIter::next terminates (lexicographic measure iter_limit, stack length), yields only ids whose dictionary has /Type /Page, never raises the budget, keeps its explicit stack within PAGE_TREE_DEPTH_LIMIT, and is exactly one step of next_spec (units/pages/spec.rs). For every page tree whose nesting stays within PAGE_TREE_DEPTH_LIMIT and whose number of kids stays within iter_limit, of any size and shape, the ids yielded by repeated calls are the /Type /Page leaves in depth-first order (theorem_page_order, units/pages/order.rs, by induction over depth and sibling lists). Trees beyond those budgets, graphs that are not trees, id layouts, Kids held behind references and the reload path are decided on the enumerated family only (bounded).',
                 note='Document::get_dictionary / Dictionary::get_type / PageTreeIter::kids enter as callee contracts (shims); while-let, byte-string match and @-pattern are rewritten by stated rules')
 
-PROPS['C17'] = dict(level='other', steps=[E3('c17-outline')],
+PROPS['C17'] = dict(level='other', steps=[V('bookmarks'), E3('c17-outline')],
                 title='Bookmarks become a well-formed outline that reads back',
-                technique='bounded-exhaustive: every attachment sequence of <= 5 (thorough 6) bookmarks x pages x targets x 4 document layouts, 23-title alphabet, every Unicode scalar value as a title (thorough), against an abstract forest',
-                text='bounded stand-in: links, order, fresh ids, titles, destinations and get_toc before/after save+load on every enumerated forest.',
-                note='bounded')
+                technique='Verus contract on Document::add_bookmark (the pending forest: fresh id, appended in insertion order under the right parent, every other bookmark untouched, ids rise from parent to child); bounded-exhaustive: every attachment sequence of <= 5 (thorough 6) bookmarks x pages x targets x 4 document layouts, 23-title alphabet, every Unicode scalar value as a title (thorough), against an abstract forest',
+                text='proved for every table, bookmark and parent (Verus unit bookmarks): add_bookmark hands out max_bookmark_id + 1, an id no bookmark of the table carries; stores the bookmark under that id with title, page, colour, format and children as given; appends the id to the end of the top-level list (no parent) or to the end of the named parent\'s children (insertion order under the right parent) and changes no other bookmark and no other list; keeps `every id within 1 ..= max_bookmark_id, stored under its own id`; and, for bookmarks made by Bookmark::new, keeps `every child carries a greater id than its parent and is in the table`, so the pending forest is acyclic. outline_child / build_outline (dictionary building, recursion over the table), the outline readers and get_toc are decided on the enumerated family only (bounded): links, order, fresh ids, titles, destinations and get_toc before/after save+load on every enumerated forest.',
+                note='bounded for the outline itself; precondition max_bookmark_id < u32::MAX on add_bookmark; HashMap::get_mut / insert enter as a stated model (units/bookmarks/spec.rs)')
 
 PROPS['C05'] = dict(level='proof', steps=[V('crypt'), E3('c05-encrypt')],
                 title='Encrypt then decrypt restores every string and stream',
